@@ -124,6 +124,7 @@ class Ctx:
         self.side = []           # side obligations: (name, formula)  -- must hold under pc at that point
         self.lift_cache = {}
         self.memo = {}
+        self.atoms = []
         self.depth = 0
         self.notes = []
 
@@ -475,18 +476,42 @@ class Interp:
             return n
         return mk(z3.Sum(*terms) + n if n else z3.Sum(*terms), 'int')
 
-    def _key(self, k):
-        if is_sym(k):
-            raise Unsupported(f'symbolic dictionary key {k!r}')
+    def _key(self, k, d=None):
+        """the key object under which k is (or will be) stored.  Symbolic keys are compared with the existing keys by
+        branching on equality (python dict semantics: equal keys are one entry)."""
         if isinstance(k, (PList, PDict, PSet)):
             self.raise_(TypeError, 'unhashable type')
-        if isinstance(k, PObj):
+        if d is None:
+            if is_sym(k):
+                raise Unsupported(f'symbolic dictionary key {k!r}')
             return k
+        if not is_sym(k):
+            try:
+                if k in d.e:
+                    return k
+            except TypeError:
+                raise Unsupported(f'unhashable key {k!r}')
+            symkeys = [kk for kk in d.e if is_sym(kk)]
+            if not symkeys or isinstance(k, (PObj, tuple)) or not isinstance(k, (str, int, float, bool, type(None))):
+                return k
+            cands = symkeys
+        else:
+            if k in d.e:
+                return k
+            cands = list(d.e.keys())
+        for kk in cands:
+            e = self.py_eq(k, kk)
+            if e is False:
+                continue
+            if self.ctx.guards and e is not True:
+                raise CannotConvert()
+            if e is True or self.ctx.branch(e):
+                return kk
         return k
 
     def dict_present(self, d, k):
         """is key k present (forks when presence is symbolic)"""
-        k = self._key(k)
+        k = self._key(k, d)
         if k not in d.e:
             return False
         g = d.e[k][0]
@@ -501,12 +526,13 @@ class Interp:
         return False
 
     def dict_get(self, d, k):
+        k = self._key(k, d)
         if not self.dict_present(d, k):
             self.raise_(KeyError, k)
         return d.e[k][1]
 
     def dict_set(self, d, k, v):
-        k = self._key(k)
+        k = self._key(k, d)
         self.ctx.mutations += 1
         if self.ctx.guards:
             g = self.ctx.guard()
@@ -523,7 +549,7 @@ class Interp:
         d.e[k] = [True, v]
 
     def dict_pop(self, d, k, default=KeyError):
-        k = self._key(k)
+        k = self._key(k, d)
         if self.ctx.guards:
             if k not in d.e or d.e[k][0] is not True:
                 raise CannotConvert()
@@ -884,7 +910,7 @@ class Interp:
             frame.locals[target.id] = val
         elif isinstance(target, ast.Attribute):
             obj = self.eval(target.value, frame)
-            self.setattr_(obj, target.attr, val)
+            self.setattr_(obj, self.mangle(target.attr, frame), val)
         elif isinstance(target, ast.Subscript):
             c = self.eval(target.value, frame)
             k = self.eval(target.slice, frame)
@@ -1118,8 +1144,14 @@ class Interp:
     def ex_Name(self, e, frame):
         return self.lookup(e.id, frame)
 
+    @staticmethod
+    def mangle(name, frame):
+        if name.startswith('__') and not name.endswith('__') and frame.defcls is not None:
+            return '_' + frame.defcls.__name__.lstrip('_') + name
+        return name
+
     def ex_Attribute(self, e, frame):
-        return self.getattr_(self.eval(e.value, frame), e.attr)
+        return self.getattr_(self.eval(e.value, frame), self.mangle(e.attr, frame))
 
     def ex_Subscript(self, e, frame):
         c = self.eval(e.value, frame)
